@@ -682,6 +682,28 @@ func RunCheck(opts CheckOpts) *CheckReport {
 		"baseline_obligations": len(base.Obligations),
 		"timeout_s":       opts.Timeout.Seconds(),
 	}
+	// testing of the trusted base (never counted as proof): the assumed dependency contracts and lemma macros are
+	// executed against the real libraries; a failure there means the assumptions of the proofs are wrong
+	{
+		ncases := 300
+		if opts.Tier == "thorough" {
+			ncases = 5000
+		}
+		var sink strings.Builder
+		sum, arc := runAxioms(cs, ncases, int64(opts.Seed)+1, &sink)
+		delete(sum, "details")
+		cov["axiom_conformance"] = sum
+		if arc != 0 {
+			for _, l := range strings.Split(sink.String(), "\n") {
+				if strings.Contains(l, "FAIL") || strings.Contains(l, "NO CONTRACT") {
+					say("ERROR: axiom conformance: %s", truncate(l, 400))
+				}
+			}
+			if rep.ExitCode == 0 {
+				rep.ExitCode = 2
+			}
+		}
+	}
 	ev := map[string]any{
 		"property_id": opts.Prop,
 		"tier":        opts.Tier,
